@@ -1,0 +1,123 @@
+//go:build verif
+
+// Contracts for package overlay, checked by /verif/govc (contract-based
+// deductive verification). Compiled only with -tags verif. The //@ blocks are
+// the contracts; the Go functions are specification functions.
+
+package overlay
+
+import (
+	"net/netip"
+	"strconv"
+
+	"github.com/slackhq/nebula/config"
+	"github.com/slackhq/nebula/routing"
+)
+
+// packages whose types are named by contracts
+var (
+	_ *config.C
+	_ netip.Prefix
+	_ routing.Gateways
+)
+
+//@ load ./routing
+
+// ---- contract vocabulary (evaluated symbolically by govc, never executed) ----
+
+func old[T any](x T) T        { return x }
+func implies(a, b bool) bool  { return !a || b }
+func same[T any](a, b T) bool { return true }
+
+func elems[T any](s []T, r ...int) bool { return true }
+
+// =====================================================================
+// C41 — route configuration parses exactly
+// =====================================================================
+//
+// Safety part: for every configuration value (any YAML type in any field) the
+// parsers return a value or an error; they never panic (every type assertion,
+// index and slice expression is an obligation).
+//
+// Value part, pointwise in an arbitrary entry j of an accepted list: MTU and
+// metric of the j-th route are exactly the configured value, where a value is
+// the integer itself or the decimal string parsed by strconv (an uninterpreted
+// function of the string here: the statement is "the parsed number is what is
+// stored", for whatever strconv parses). A missing metric is 0, a missing
+// unsafe-route MTU is 0. The metric lies in 0..2^31-1 and an MTU that is given
+// is at least 500.
+
+// specConfigGet: what the configuration holds at a key (uninterpreted).
+//@ func specConfigGet
+//@   opaque
+func specConfigGet(c *config.C, k string) any { return nil }
+
+//@ func github.com/slackhq/nebula/config.(*C).Get
+//@   trusted configuration lookup; returns whatever the YAML held at that key (any type), reads only
+//@   ensures result == specConfigGet(c, k)
+//@   assigns nothing
+
+// specIntField: the number a numeric field stands for.
+//@ func specIntField
+//@   pure
+func specIntField(v any, bits int) int {
+	if i, ok := v.(int); ok {
+		return i
+	}
+	s, _ := v.(string)
+	n, _ := strconv.ParseInt(s, 10, bits)
+	return int(n)
+}
+
+//@ func specEntry
+//@   pure
+func specEntry(c *config.C, key string, j int) map[string]any {
+	raw, _ := specConfigGet(c, key).([]any)
+	m, _ := raw[j].(map[string]any)
+	return m
+}
+
+//@ func specCount
+//@   pure
+func specCount(c *config.C, key string) int {
+	raw, _ := specConfigGet(c, key).([]any)
+	return len(raw)
+}
+
+//@ func specField
+//@   pure
+func specField(c *config.C, key string, j int, field string, bits int, dflt int) int {
+	v, ok := specEntry(c, key, j)[field]
+	if !ok {
+		return dflt
+	}
+	return specIntField(v, bits)
+}
+
+//@ func parseRoutes
+//@   props C41
+//@   ghost j int
+//@   requires c != nil
+//@   ensures[shape] implies(result1 != nil, len(result0) == 0)
+//@   ensures[count] implies(result1 == nil && specConfigGet(c, "tun.routes") != nil, len(result0) == old(specCount(c, "tun.routes")))
+//@   ensures[mtu]   implies(result1 == nil && 0 <= j && j < len(result0), result0[j].MTU == old(specField(c, "tun.routes", j, "mtu", 0, 0)) && result0[j].MTU >= 500 && result0[j].Install)
+//@   loop 1 invariant[frame] len(routes) == len(rawRoutes)
+//@   loop 1 invariant[done]  implies(0 <= j && j < i, routes[j].MTU == old(specField(c, "tun.routes", j, "mtu", 0, 0)) && routes[j].MTU >= 500 && routes[j].Install)
+//@   loop 1 assigns elems(routes)
+//@   loop 2 invariant true
+
+//@ func parseUnsafeRoutes
+//@   props C41
+//@   ghost j int
+//@   requires c != nil
+//@   ensures[shape]  implies(result1 != nil, len(result0) == 0)
+//@   ensures[count]  implies(result1 == nil && specConfigGet(c, "tun.unsafe_routes") != nil, len(result0) == old(specCount(c, "tun.unsafe_routes")))
+//@   ensures[metric] implies(result1 == nil && 0 <= j && j < len(result0), result0[j].Metric == old(specField(c, "tun.unsafe_routes", j, "metric", 32, 0)) && 0 <= result0[j].Metric && result0[j].Metric <= 1<<31-1)
+//@   ensures[mtu]    implies(result1 == nil && 0 <= j && j < len(result0), result0[j].MTU == old(specField(c, "tun.unsafe_routes", j, "mtu", 0, 0)) && (result0[j].MTU == 0 || result0[j].MTU >= 500))
+//@   loop 1 invariant[frame]  len(routes) == len(rawRoutes)
+//@   loop 1 invariant[metric] implies(0 <= j && j < i, routes[j].Metric == old(specField(c, "tun.unsafe_routes", j, "metric", 32, 0)) && 0 <= routes[j].Metric && routes[j].Metric <= 1<<31-1)
+//@   loop 1 invariant[mtu]    implies(0 <= j && j < i, routes[j].MTU == old(specField(c, "tun.unsafe_routes", j, "mtu", 0, 0)) && (routes[j].MTU == 0 || routes[j].MTU >= 500))
+//@   loop 1 assigns elems(routes)
+//@   loop 2 invariant true
+//@   loop 2 assigns elems(gateways)
+//@   loop 3 invariant true
